@@ -127,6 +127,10 @@ def judge(ctx, ss, ts, tb, fb):
     spec = {"kind": "match", "source": ss, "target": ts, "tb": tb, "fb": fb}
     src, tgt = [geoms.build(s) for s in ss], [geoms.build(t) for t in ts]
     try:
+        if ctx.evaluations % 5 == 0:
+            it = iter(instrument.original(M.match_geometries)(src, tgt, time_buffer=tb, freq_buffer=fb))
+            next(it, None)
+            del it
         first = list(M.match_geometries(src, tgt, time_buffer=tb, freq_buffer=fb))
         # the property holds for every call, also the second one on the very same objects
         second = list(M.match_geometries(src, tgt, time_buffer=tb, freq_buffer=fb))
